@@ -14,6 +14,8 @@ git -C /repo worktree add --detach "$wt" HEAD -q || { echo "worktree failed" >> 
 cd "$wt" || exit 2
 if git apply "$out/patch.diff"; then echo "patch: applies to $(git -C /repo rev-parse --short HEAD)" >> "$log"; else echo "patch: DOES NOT APPLY" >> "$log"; cd /; git -C /repo worktree remove --force "$wt"; exit 1; fi
 mkdir -p "$(dirname "$dest")"; cp "$out/$demo" "$dest"
+# in-crate demonstrations: CF_APPEND_FILE / CF_APPEND_TEXT register the copied module
+if [ -n "$CF_APPEND_FILE" ]; then printf '%b' "$CF_APPEND_TEXT" >> "$CF_APPEND_FILE"; fi
 timeout 5400 cargo test --offline $demo_args > /tmp/cf_demo_with_$$.log 2>&1; rc=$?
 echo "demo with change: rc=$rc $(grep -E '^test result' /tmp/cf_demo_with_$$.log | tr '\n' ' ')" >> "$log"
 if [ -n "$exist_args" ]; then
